@@ -198,7 +198,7 @@ fn enumerate(args: &Args) -> Vec<VCase> {
     match args.property.as_str() {
         "C05" => {
             let tys = ["RSQVector256", "RSQVector512"];
-            for g in tiny_all(4, if th { 11 } else { 9 }) {
+            for g in tiny_all(4, if th { 11 } else { 10 }) {
                 for ty in tys {
                     // construction path rotates with the case for the tiny family; all three for the long ones
                     let p = (v.len() % 3) as u8;
@@ -239,7 +239,7 @@ fn enumerate(args: &Args) -> Vec<VCase> {
         }
         "C06" => {
             let tys = ["RSNarrow", "RSWide"];
-            for g in tinybits_all(if th { 22 } else { 16 }) {
+            for g in tinybits_all(if th { 22 } else { 18 }) {
                 for ty in tys {
                     let p = (v.len() % 5) as u8;
                     v.push(VCase::Bin { ty: ty.into(), gen: g.clone(), path: p, dense: 8193 });
@@ -265,7 +265,7 @@ fn enumerate(args: &Args) -> Vec<VCase> {
             }
         }
         "C07" => {
-            for g in tinybits_all(if th { 18 } else { 13 }) {
+            for g in tinybits_all(if th { 18 } else { 15 }) {
                 for sel0 in [false, true] {
                     v.push(VCase::DArr { sel0, gen: g.clone(), path: (v.len() % 3) as u8, dense: 8193 });
                 }
